@@ -25,6 +25,8 @@ from hpstatic.poly import Canon
 from hpstatic.terms import sym, intern, show, subterms, num
 from .common import THEORY
 
+MUTATION_TARGETS = {'holopy/scattering/theory/tmatrix.py': ['_parse_args', '_run_tmat', 'can_handle']}
+
 LEVEL = 'other'
 META = dict(
     claimed=True,
